@@ -83,9 +83,17 @@ let rec take_groups n k toks f =
 
 let expect_end = function [] -> () | _ -> failwith "trailing tokens"
 
-let parse_op (line : string) : op =
-  let toks = List.filter (fun s -> s <> "") (String.split_on_char ' ' line) in
+let rec parse_toks (toks : string list) : op =
+  let line = String.concat " " toks in
   match toks with
+  (* `funds N DENOM AMT ... TRANSACTION`: the transaction with these coins attached to its root message *)
+  | "funds" :: n :: rest ->
+      let (cs, r) = take_groups (int_of_string n) 2 rest
+          (function [d; x] -> (denom_of d, pn x) | _ -> failwith "coin") in
+      (match r with "funds" :: _ -> failwith "funds: a transaction must follow" | _ -> ());
+      (match parse_toks r with
+       | OTx (s, t, m, f) -> OTx (s, t, m, f @ cs)
+       | _ -> failwith "funds: a transaction must follow")
   | ["reset"; ut] -> OReset (pn ut)
   | ["advance"; dt] -> OAdvance (pn dt)
   | ["slash"; v; num; den; unb] -> OSlash (val_of v, pn num, pn den, parse_bool01 unb)
@@ -206,6 +214,10 @@ let parse_op (line : string) : op =
   | _ -> failwith ("bad op: " ^ line)
 
 (* ---------- printing ---------- *)
+
+let parse_op (line : string) : op =
+  parse_toks (List.filter (fun s -> s <> "") (String.split_on_char ' ' line))
+
 let buf = Buffer.create (1 lsl 20)
 let pr fmt = Printf.bprintf buf fmt
 let flush_buf () = print_string (Buffer.contents buf); Buffer.clear buf
